@@ -6,7 +6,7 @@
    either shape is accepted inside it (type_next_ok). *)
 From Verif Require Import Base Regex Token TokEngine Headers Blocks Spec HeaderSpec LexShapes Grammar GrammarAll.
 From Verif Require Import GrammarProofsParen GrammarProofsBrace GrammarProofsHeaders GrammarAllProofsTok.
-From Verif Require Import GrammarAllProofsSel GrammarAllProofsCand GrammarAllProofsItems GrammarAllProofsJava.
+From Verif Require Import GrammarAllProofsSel GrammarAllProofsCand GrammarAllProofsCb GrammarAllProofsItems GrammarAllProofsJava.
 From Coq Require Import Sorted Permutation.
 Open Scope nat_scope.
 
@@ -407,7 +407,8 @@ Theorem canonical_typescript_citems Pc ts ds : citems Pc any_tokens LTypeScript 
 Proof.
   intros H. unfold lexical_headers_TypeScript.
   exact (canonical_two_shapes Pc any_tokens LTypeScript cand_function follow_rettype cand_arrow follow_brace
-           (good_oksel _ _ _ _ (good_function_rettype LTypeScript)) (good_oksel _ _ _ _ (good_arrow LTypeScript))
+           (good_oksel _ _ _ _ (good_function_rettype LTypeScript) (fun w => fsuf_function follow_rettype w fshift_rettype frejects_rettype))
+           (good_oksel _ _ _ _ (good_arrow LTypeScript) fsuf_arrow)
            head_split_typescript ts ds H).
 Qed.
 
